@@ -405,6 +405,19 @@ static void c04_case(uint64_t idx)
             hh = vh_hash(key, klen, hh);
             if (log.n < 3000) { sb_printf(&log, "{\"set_tweaked_key\":"); sb_hex(&log, key, klen); sb_printf(&log, "}"); }
             if (ret != 1) { snprintf(k_, sizeof(k_), "C04:skinny%u:set_tweaked_key:valid-call-rejected", bb * 8); sb_printf(&log, "]"); c03_report(idx, k_, "ret", key, key, 0, log.p); sb_free(&log); return; }
+        } else if (op <= 4 && !chain && !vh_below(&r, 6)) {
+            /* a rejected call in the middle of the history (bad key length / bad tweak length) must not disturb
+               the "key + latest tweak" state: the model simply ignores it */
+            int which = (int)vh_below(&r, 2); unsigned badlen; uint8_t junk[40];
+            vh_rand_bytes(&r, junk, sizeof(junk));
+            snprintf(k_, sizeof(k_), "C04:skinny%u:%s", bb * 8, which ? "rejected-set_tweak" : "rejected-set_tweaked_key"); vh_set_crash_key(k_);
+            vh_call_begin("rejected call");
+            if (which) { badlen = vh_below(&r, 2) ? 0 : bb + 1 + vh_below(&r, 4); ret = bb == 16 ? skinny128_set_tweak(&t128, junk, badlen) : skinny64_set_tweak(&t64, junk, badlen); }
+            else { badlen = vh_below(&r, 2) ? bb - 1 - vh_below(&r, 3) : 2 * bb + 1 + vh_below(&r, bb); ret = bb == 16 ? skinny128_set_tweaked_key(&t128, junk, badlen) : skinny64_set_tweaked_key(&t64, junk, badlen); }
+            vh_call_end();
+            VH_COUNT("rejected_calls_inside_histories", 1);
+            if (log.n < 3000) sb_printf(&log, "{\"%s\":\"rejected\",\"len\":%u}", which ? "set_tweak" : "set_tweaked_key", badlen);
+            if (ret != 0) { snprintf(k_, sizeof(k_), "C04:skinny%u:%s:invalid-call-accepted", bb * 8, which ? "set_tweak" : "set_tweaked_key"); sb_printf(&log, "]"); c03_report(idx, k_, "ret", key, key, 0, log.p); sb_free(&log); return; }
         } else if (op <= 4) {
             int null = !vh_below(&r, 8);
             tlen = vh_below(&r, 2) ? bb : 1 + vh_below(&r, bb);
